@@ -143,7 +143,7 @@ class Spec(core.PropSpec):
         if kind == "epochs":
             n_batches = epochs * rw.randint(1, 4)
         rem = rw.choice([0, 0, 1, B - 1, rw.randint(0, B - 1)]) if B > 1 else 0  # samples dropped per epoch under drop_last
-        return dict(cls="schedule", rem=rem, inner=inner, schedule=rw.choice(SCHEDULES), K=rw.choice([0, 1, 2, 2, 3, 4]), B=B, n_batches=n_batches,
+        return dict(cls="schedule", rem=rem, nest=rw.choice(["plain", "plain", "compose", "compose2"]), inner=inner, schedule=rw.choice(SCHEDULES), K=rw.choice([0, 1, 2, 2, 3, 4]), B=B, n_batches=n_batches,
                     hook=kind, epochs=epochs, drop_last=rw.random() < 0.5, prefetch=rw.choice([1, 2, 3]), seed=ro.randint(0, 10 ** 6),
                     sched_seed=ro.getrandbits(32), perm_seed=ro.getrandbits(16))
 
@@ -368,6 +368,15 @@ class Spec(core.PropSpec):
         sched_obj = make_schedule(plan["schedule"])
         try:
             st = kdt.KDScheduledTransform(L[plan["inner"]]["make"](), schedule=sched_obj)
+            nest = plan.get("nest", "plain")
+            top = st
+            if nest == "compose":
+                # the scheduled transform sits inside a composition: hook arguments and seeds must travel through it
+                top = kdt.KDComposeTransform([kdt.KDComposeTransform([st])])
+            elif nest == "compose2":
+                # two scheduled transforms in one pipeline, each with its own counter (the second around an identity-like op)
+                st2 = kdt.KDScheduledTransform(kdt.KDRandomHorizontalFlip(p=0.0), schedule=make_schedule(plan["schedule"]))
+                top = kdt.KDComposeTransform([st, st2])
         except Exception as e:
             out.rejected = True
             out.ev("rejected", type(e).__name__)
@@ -388,7 +397,7 @@ class Spec(core.PropSpec):
         else:
             N = NB * B
             hook_kw = dict(batch_size=B, samples=NB * B)
-        ds = ModeWrapper(XTransformWrapper(TensorDataset(N), st, seed=plan["seed"]), mode="index x", return_ctx=True)
+        ds = ModeWrapper(XTransformWrapper(TensorDataset(N), top, seed=plan["seed"]), mode="index x", return_ctx=True)
         # one iterator over the whole run: a list of full batches (order drawn from the plan)
         import random as _r
         prng = _r.Random(plan["perm_seed"])
